@@ -86,6 +86,10 @@ fn tbl_eval(name: &str, a: &[&str]) -> Option<String> {
         "qsq" => h(CastleRights::NoRights.queenside_squares(col(a, 0)?)),
         "crstr" => hex_text(&cr(num(a, 0, 4)?).to_string(col(a, 1)?)),
         "pcstr" => hex_text(&ALL_PIECES[num(a, 0, 6)?].to_string(col(a, 1)?)),
+        "rsq2cr" => d(CastleRights::rook_square_to_castle_rights(s0()?).to_index()),
+        "toint" => d(s0()?.to_int() as usize),
+        "sqdefault" => d(Square::default().to_index()),
+        "tosize" => d(bb(hexa(a, 0)?).to_size(num(a, 1, 64)? as u8)),
         _ => return None,
     })
 }
@@ -262,7 +266,13 @@ pub fn bbtosq(a: u64) -> String {
 }
 
 pub fn bbfromsq(s: usize) -> String {
-    let r = guard(|| h(BitBoard::from_square(sq(s))));
+    let r = guard(|| {
+        let b = BitBoard::from_square(sq(s));
+        if BitBoard::from_maybe_square(Some(sq(s))) != Some(b) || BitBoard::from_maybe_square(None).is_some() {
+            return "DIFF:from_maybe_square".to_string();
+        }
+        h(b)
+    });
     format!("BBFROMSQ {} => {}", s, r.unwrap_or_else(|| "PANIC".into()))
 }
 
